@@ -68,6 +68,8 @@ class ExplorerScriptSsbDecompiler:
     labels_already_printed: list[int] = []
     # Ids of the labels that a written `jump @label_N;` or `call @label_N;` names.
     labels_jumped_to: list[int] = []
+    # Offset of the Jump op that was just passed, until the next statement is written.
+    _jump_waiting_for_source_map: int | None = None
     smb: SourceMapBuilder | None
     performance_progress_list_var_name: str
     dungeon_mode_constants: DungeonModeConstants
@@ -98,6 +100,7 @@ class ExplorerScriptSsbDecompiler:
         self._line_number = 1
         self.labels_already_printed = []
         self.labels_jumped_to = []
+        self._jump_waiting_for_source_map = None
         self.smb = None
         self.performance_progress_list_var_name = performance_progress_list_var_name
         self.dungeon_mode_constants = dungeon_mode_constants
@@ -109,6 +112,7 @@ class ExplorerScriptSsbDecompiler:
         self.indent = 0
         self.labels_already_printed = []
         self.labels_jumped_to = []
+        self._jump_waiting_for_source_map = None
         self._line_number = 1
         self.smb = SourceMapBuilder()
 
@@ -201,6 +205,7 @@ class ExplorerScriptSsbDecompiler:
 
     def write_stmnt(self, stmnt: str, line: bool = True) -> None:
         """Write a simple single line statement"""
+        self._jump_waiting_for_source_map = None
         if line:
             self.write_line()
         self._line_number += stmnt.count("\n")
@@ -222,21 +227,18 @@ class ExplorerScriptSsbDecompiler:
 
     def write_label_jump(self, label_id: int, previous_op: SsbOperation) -> None:
         # Depending on what the previous operation was, this has to be printed differently
-        if not isinstance(previous_op, SsbLabelJump):
-            # We need a jump now. We didn't have one but now we will.
-            self.write_stmnt(f"jump @label_{label_id};")
-        elif previous_op.get_marker() is None:
-            # Normal jump, just print that
-            self.write_stmnt(f"jump @label_{label_id};")
-        elif isinstance(previous_op.get_marker(), ForeverContinue) or isinstance(
-            previous_op.get_marker(), ForeverBreak
+        if isinstance(previous_op, SsbLabelJump) and (
+            isinstance(previous_op.get_marker(), ForeverContinue) or isinstance(previous_op.get_marker(), ForeverBreak)
         ):
             # Loop continue/break
             # Do nothing
             return
-        else:
-            # Jump as part of a control structure
-            self.write_stmnt(f"jump @label_{label_id};")
+        # In all other cases we need a jump now: after an operation that is no jump, for a normal jump and for a jump
+        # as part of a control structure.
+        if self._jump_waiting_for_source_map is not None:
+            # This is the statement for the Jump op that was just passed.
+            self.source_map_add_opcode(self._jump_waiting_for_source_map)
+        self.write_stmnt(f"jump @label_{label_id};")
         self.labels_jumped_to.append(label_id)
 
     def source_map_add_opcode(self, op_offset: int) -> None:
@@ -245,6 +247,11 @@ class ExplorerScriptSsbDecompiler:
         # TODO: Assumes that all statements start in a new line after indent.
         #       Might need this more flexible.
         self.smb.add_opcode(op_offset, self._line_number, self.indent * NUMBER_OF_SPACES_PER_INDENT)
+
+    def source_map_jump_passed(self, op_offset: int) -> None:
+        """A Jump op only gets a source map entry if a `jump @label_N;` is written for it right away. Otherwise it
+        was expressed by the structure of the code, and no statement of the text belongs to it."""
+        self._jump_waiting_for_source_map = op_offset
 
     def source_map_add_opcode_in_current_line(self, op_offset: int, columns_ahead: int = 0) -> None:
         """Like source_map_add_opcode, for a statement that continues the current line (`} elseif (...)`).
